@@ -629,12 +629,14 @@ def monitor_c03(se, stats):
             seen.add((d["uid"], k))
             stats["first_deliveries"] = stats.get("first_deliveries", 0) + 1
             p, ps = pub[d["uid"]]
-            for other in first.get(k, []):
+            for (other, ostep, oconn) in first.get(k, []):
                 op_, os_ = pub[other]
-                if op_ == p and os_ > ps:
+                # "before" must be observable: an earlier step, or earlier in the byte stream of the same connection
+                # (two receivers on different connections served within one step are not ordered by what they see)
+                if op_ == p and os_ > ps and (ostep < i or oconn == d["conn"]):
                     viol.append({"step": i, "what": "queue %s: message %s (published later on channel %s) was first delivered before message %s (after `%s`)" % (
                         d["queue"], other, p, d["uid"], st["op"])})
-            first.setdefault(k, []).append(d["uid"])
+            first.setdefault(k, []).append((d["uid"], i, d["conn"]))
         # batch return order (only where the outcome does not depend on goroutine timing)
         if prev is not None and se.get("kind") == "exact" and f[0] in ("NACK", "CHCLOSE", "CHCLOSEOK", "DROP", "CLOSE"):
             c = int(f[1])
